@@ -1184,6 +1184,85 @@ func placeholderRefresh(res *vkit.Result, dir string) {
 	os.Unsetenv("VERIF_C17_CASE")
 }
 
+// concurrentFactories: with rps-per-instance, and for guns registered as plain constructors, the
+// pool's factories decode their config section again on every call, from the goroutine of the
+// instance being started — many at once when instances are released together. Every product
+// must carry the configured values, none may be rejected.
+func concurrentFactories(res *vkit.Result, rounds int) {
+	ec, stage, err := decodeFull(map[string]any{"pools": []any{map[string]any{
+		"id": "p", "ammo": map[string]any{"type": "grpc/json", "file": "/c17/ammo.grpc"}, "result": map[string]any{"type": "discard"},
+		"gun":              map[string]any{"type": "grpc", "target": "127.0.0.1:8888", "timeout": "4s", "tls": true, "dial_options": map[string]any{"authority": "auth.example", "timeout": "6s"}},
+		"rps-per-instance": true,
+		"rps":              []any{map[string]any{"type": "line", "from": 1, "to": 9, "duration": "1s"}, map[string]any{"type": "const", "ops": 7, "duration": "2s"}},
+		"startup":          map[string]any{"type": "once", "times": 16},
+	}}})
+	cs := map[string]any{"gun": "grpc with timeout 4s, tls, authority", "rps": "[line 1→9 1s, const 7 2s] per instance", "goroutines": 16}
+	if err != nil {
+		res.Violate("C17/concurrent-factories/valid-config-rejected", fmt.Sprintf("rejected at %s: %v", stage, err), cs)
+		return
+	}
+	pool := ec.Pools[0]
+	var mu sync.Mutex
+	problems := map[string]string{}
+	note := func(k, v string) {
+		mu.Lock()
+		if problems[k] == "" {
+			problems[k] = v
+		}
+		mu.Unlock()
+	}
+	products := int64(0)
+	for r := 0; r < rounds; r++ {
+		var wg sync.WaitGroup
+		start := make(chan struct{})
+		for g := 0; g < 16; g++ {
+			wg.Add(1)
+			go func(g int) {
+				defer wg.Done()
+				defer func() {
+					if p := recover(); p != nil {
+						note("panic", fmt.Sprint(p))
+					}
+				}()
+				<-start
+				if g%2 == 0 {
+					gun, err := pool.NewGun()
+					if err != nil {
+						note("gun-rejected", err.Error())
+						return
+					}
+					v, ok := findType(gun, reflect.TypeOf(grpcgun.GunConfig{}))
+					if !ok {
+						note("gun-config", fmt.Sprintf("no config in %T", gun))
+						return
+					}
+					c := readable(v).Interface().(grpcgun.GunConfig)
+					if c.Target != "127.0.0.1:8888" || c.Timeout != 4*time.Second || !c.TLS || c.DialOptions.Authority != "auth.example" || c.DialOptions.Timeout != 6*time.Second {
+						note("gun-config", fmt.Sprintf("%+v", c))
+					}
+				} else {
+					sch, err := pool.NewRPSSchedule()
+					if err != nil {
+						note("rps-rejected", err.Error())
+						return
+					}
+					if l := sch.Left(); l != 5+14 {
+						note("rps-profile", fmt.Sprintf("Left() = %d, the section describes 5 + 14 tokens", l))
+					}
+				}
+				atomic.AddInt64(&products, 1)
+			}(g)
+		}
+		close(start)
+		wg.Wait()
+	}
+	for k, v := range problems {
+		res.Violate("C17/concurrent-factories/"+k, "a product created while 15 other factory calls were running: "+v, cs)
+	}
+	res.Count("products_created_concurrently", products)
+	res.Eval("concurrent-factories", true)
+}
+
 func main() {
 	// The property resolver and answlog read and write the real filesystem.
 	vkit.Fs()
@@ -1208,6 +1287,7 @@ func main() {
 
 	unknownKeys(res, aux)
 	placeholderRefresh(res, aux)
+	concurrentFactories(res, vkit.N(150, 3000))
 	requiredKeys(res)
 	for _, c := range comps() {
 		wrongAndBad(res, c, propFile)
